@@ -16,22 +16,22 @@ E = {
 }
 
 # id -> (engine, technique, level text, level note, design ref)
-E1_NOTE = "Trusts the from-scratch reference interpreter (Clean), the instrumented checkers and the task-side / checker-side logs; bounded to <= 8 tasks, <= 9 resources, <= 12 history steps per scenario (configurations *-xl: <= 14 tasks, <= 11 resources, <= 16 steps); task programs are interpreted scripts over simulated resource families."
+E1_NOTE = "Trusts the from-scratch reference interpreter (Clean), the instrumented checkers and the task-side / checker-side logs; bounded to <= 8 tasks, <= 9 resources, <= 12 history steps per scenario (configurations *-xl: <= 14 tasks, <= 11 resources, <= 16 steps; *-marathon: <= 6 tasks, 150..300 steps); task programs are interpreted scripts over simulated resource families."
 CHECKS = {
   "C01": ("e1", "deterministic simulation: seeded programs x worlds x histories against the real pie crate; outputs and resource contents of every returning session vs a from-scratch reference interpreter",
           "Seeded search over class-W task programs (dynamic require/read/write structure, all checker kinds, five task type families), initial worlds and histories of external changes and top-down sessions; after every returning session the outputs and the world are compared with a from-scratch build of the current state; validation of every reused task is checked through serial-numbered stamps. Evidence over sampled scenarios.", E1_NOTE, "5/C01"),
   "C02": ("e1", "deterministic simulation: every execution justified from the checker-side log (serial-numbered stamps), creation-order validation, idempotent repeat, subset-of-clean for exact checkers",
           "Same scenario space as C01; per session: at most one execution per task, every re-execution preceded by an inconsistent verdict on a dependency of the task's latest execution, dependencies validated in creation order with early stop, repeat sessions execute nothing, exact-checker programs execute a subset of the from-scratch build.", E1_NOTE, "5/C02"),
   "C03": ("e1", "deterministic simulation: completely reported bottom-up builds followed by probing every known task, vs from-scratch reference",
-          "Seeded histories of change batches reported completely to bottom-up builds (pure bottom-up, mixed with all-roots and with arbitrary top-down sessions, and sessions that require tasks top-down before the build, drop an unused build or run a second build inside one session); afterwards requiring every known task must execute nothing and return from-scratch outputs; every inconsistent verdict seen during the build must lead to an execution; cached reuse during the build only when nothing scheduled is reachable.", E1_NOTE, "5/C03"),
+          "Seeded histories of change batches reported completely to bottom-up builds (pure bottom-up, mixed with all-roots and with arbitrary top-down sessions, and sessions that require tasks top-down before the build, drop an unused build or run a second build inside one session, and long-lived sessions in which resources change while the session is open and the batch is reported to a further build of that session: there only the end state is claimed); afterwards requiring every known task must execute nothing and return from-scratch outputs; every inconsistent verdict seen during the build must lead to an execution; cached reuse during the build only when nothing scheduled is reachable.", E1_NOTE, "5/C03"),
   "C04": ("e1", "deterministic simulation: bottom-up executions justified by inconsistent verdicts (checker-side log), at most once, dependency order",
           "Same histories as C03 (plus crash-injecting mixes, in which the rules apply to every task that was not itself left aborted); every execution of a previously completed task in a bottom-up build must follow an inconsistent/erroneous verdict on one of its own recorded dependencies; at most one execution per task; no task executes while a scheduled task it transitively requires still waits.", E1_NOTE, "5/C04"),
   "C10": ("e2", "deterministic simulation: seeded operation histories over the real DAG vs reference graph, invariants after every op",
           "Seeded search over DAG operation histories (incl. operations on removed nodes, re-insertions, cycle-closing edges) with rank-bijection / ascending-edge / exact-cycle-verdict / rollback invariants evaluated after every operation against a DFS reference. Evidence over the sampled histories, not proof.",
-          "Trusts the naive reference graph; bounded to <= 12 live nodes and <= 120 operations per history (configuration wide: <= 30 nodes, <= 240 operations); hash iteration order controlled through the guarded seeded-hasher seam.", "5/C10"),
+          "Trusts the naive reference graph; bounded to <= 12 live nodes and <= 120 operations per history (configurations wide: <= 30 nodes, <= 240 operations; marathon: <= 14 nodes, <= 6000 operations; chain: <= 70 nodes, one insertion moves a chain of 34..60 nodes); hash iteration order controlled through the guarded seeded-hasher seam.", "5/C10"),
   "C11": ("e2", "deterministic simulation: seeded operation histories over the real DAG, every public query vs reference graph after every op",
           "Same histories as C10; after every operation every public query (direct/transitive edges, ordered incoming/outgoing adjacency with data, both descendant iterators, topo_cmp, removal results) is compared for all ordered pairs of live and dead handles with the reference graph. Evidence over the sampled histories.",
-          "Trusts the naive reference graph; bounded to <= 12 live nodes and <= 120 operations per history (configuration wide: <= 30 nodes, <= 240 operations).", "5/C11"),
+          "Trusts the naive reference graph; bounded to <= 12 live nodes and <= 120 operations per history (configurations wide, marathon, chain as for C10).", "5/C11"),
   "C16": ("e1", "deterministic simulation with a seeded-hasher seam: each history replayed under other hash seeds, after unrelated instances, in a fresh thread and with OS-random seeds; complete event logs compared",
           "Every scenario of the top-down and bottom-up mixes is replayed under perturbations that must not matter (hash seed, unrelated instances before, fresh thread, OS-random seeds); the complete unified event log (task-side, checker-side, resource-side and tracker events with stamps) must be identical.", E1_NOTE, "5/C16"),
   "C17": ("e1", "deterministic simulation: full-fidelity recording tracker cross-checked against task-side and checker-side logs; composite children compared; EventTracker and helpers vs reference scan",
@@ -51,13 +51,13 @@ CHECKS = {
   "C08": ("e1", "deterministic simulation + guarded store dump: dump compared with the ledger of latest executions after every returning session; serial-numbered stamps identify the execution that created a dependency",
           "After every returning session the dumped dependency store must equal the ledger (targets, kinds, checkers, stamps, order, outputs); no check may be made against a stamp of an earlier execution. Two incompleteness findings for several dependencies on one target are listed.", E1_NOTE + " Uses the read-only store-dump hook.", "5/C08"),
   "C09": ("e1", "deterministic simulation: instrumented checker families (exact, parity, exists, version, threshold, always) and delegating output checkers; stamp route / timing and verdict use checked from the checker-side log",
-          "Stamps must be taken through the documented route at the documented time (reader handed to the task, after the write function, from the returned output); every verdict of a checker decides re-execution exactly; coarse checkers ignore what they must ignore.", E1_NOTE, "5/C09"),
+          "Checker families include checkers whose stamp type is zero-sized (everything the verdict needs is in the checker; the model knows their verdict even when pie never asks). Stamps must be taken through the documented route at the documented time (reader handed to the task, after the write function, from the returned output); every verdict of a checker decides re-execution exactly; coarse checkers ignore what they must ignore.", E1_NOTE, "5/C09"),
   "C13": ("e3", "seeded path-state histories on the real filesystem with explicit modification times and faults between write and stamp",
           "Seeded histories of one path through absent / file / directory states with explicit mtimes; the three stamp routes of the three checkers must agree, remembered stamps must check inconsistent exactly when the documented aspect differs, readers stay fresh, writes create / truncate / refuse directories. Evidence over sampled histories on this machine's filesystem.",
           "Real kernel filesystem (tmpfs or temp dir); the clock is removed by setting every mtime explicitly; directory iteration order is the kernel's.", "5/C13"),
   "C14": ("e4", "seeded operation histories over the map resource and typed resource state in one Pie vs a map-of-maps model",
           "After every operation (including a task whose write function panics before / after storing, or that panics after the write, with the Pie used further) the returned value and the complete observable state of every resource type must equal the model; equality-checker verdicts for remembered stamps must match; three stamp routes agree.",
-          "Trusts the map-of-maps model; three key types, two further resource types, three state types.", "5/C14"),
+          "Trusts the map-of-maps model; three typed key types, the trait-object keyed maps MapKeyObjToObj / MapKeyToObj with five inner key types and four value types (two field-less each), two further resource types, three state types.", "5/C14"),
   "C15": ("e1", "deterministic simulation over type families with identical representation, hash and Debug text (incl. Box/Rc wrappers of one task type) + direct trait-object equality probes",
           "Programs mix seven task families and two resource families with coinciding ids; equal keys must share one node and one execution, different types must never share an output, a dependency or a node (from-scratch outputs, store dump), and trait-object equality must agree with (type, value) for all key pairs.", E1_NOTE, "5/C15"),
 }
